@@ -126,7 +126,7 @@ EXTRA_TEXT = {
     "C08": " Requests for compressed_segmentation on narrow types with a block size in the description; voxel sizes in sixteenths of a nanometre.",
     "C10": " Other image containers (1-bit, 16-bit, float samples) offered to the JPEG decoder; chunks with 4-7 channels and every cut inside the channel offset table.",
     "C11": " Values a hair off a rounding tie (a float32 detour would land on the tie).",
-    "C12": " A scale key with underscore, dash and dot; a payload that is itself a complete gzip stream.",
+    "C12": " A scale key with underscore, dash and dot; a payload that is itself a complete gzip stream. The accessor dispatcher is covered by its own module (Dispatch.tla, complete model): metadata states x unreadable metadata x URL forms x sharding option x HTTP readers x sessions; TLC-generated, directed (decision table with a store behind every row) and weighted random life-cycle histories run on a real directory + loopback server and are judged by Trace_Dispatch (ReadYourWrites, NoSilentMisroute, NoStaleRead through freshly dispatched accessors).",
     "C13": " Failing source chunk reads, --copy-info into a destination that holds another dataset, all-zero chunks, supervoxel volumes (more than 256 labels of uneven frequency inside one compressed_segmentation block).",
     "C14": " Multi-scale sessions on pyramids that share sharding parameters (both read orders); server behaviour ErrorPageFit (an error status whose page has exactly the requested length) at every request position.",
     "C15": " compressed_segmentation and sharded destinations, blank slices, mixed 8/16-bit stacks, invalid stacks (must be refused), function-API conversions in one process, directory names whose sort order differs from the command-line order.",
